@@ -228,6 +228,19 @@ pub fn ints(req: &J) -> J {
     if let Ok(x) = s.parse::<i128>() {
         out.insert("i128_wide".into(), show(liquid::model::to_value(&x)));
     }
+    // the numeral as a map KEY (MapKeySerializer prints integer keys): one entry, key = the decimal numeral
+    {
+        use std::collections::BTreeMap;
+        macro_rules! key_of { ($t:ty, $name:expr) => {
+            if let Ok(x) = s.parse::<$t>() {
+                let mut m: BTreeMap<$t, i32> = BTreeMap::new();
+                m.insert(x, 1);
+                out.insert($name.into(), show(liquid::model::to_value(&m)));
+            }
+        } }
+        key_of!(u64, "key_u64"); key_of!(i64, "key_i64"); key_of!(u8, "key_u8"); key_of!(i8, "key_i8");
+        key_of!(u32, "key_u32"); key_of!(i32, "key_i32"); key_of!(usize, "key_usize"); key_of!(u16, "key_u16"); key_of!(i16, "key_i16");
+    }
     // the same numeral read as JSON
     out.insert("json".into(), match serde_json::from_str::<Value>(s) { Ok(v) => canon(&v), Err(e) => json!({"error": e.to_string()}) });
     out.insert("json_in_object".into(), match serde_json::from_str::<Object>(&format!("{{\"k\": {}}}", s)) { Ok(v) => canon(&v), Err(e) => json!({"error": e.to_string()}) });
